@@ -32,6 +32,8 @@ CONSTANTS Chans,          \* channel indices
           ReadSizes,      \* sizes asked for by recv / recv_stderr
           StatusPick,     \* which rows of StatusTable (below) the peer may send as exit status
           AtomicCombine,  \* see above
+          EventBeforeStatus, \* FALSE (the code): _handle_request stores exit_status, then sets status_event;
+                          \* TRUE: mutation, the event is set first and the value stored afterwards
           Mutation        \* "none" or the name of a deliberately wrong variant (sensitivity runs)
 
 \* An exit status is a uint32 (RFC 4254 6.10).  TLC integers are 32-bit signed, so a status is the pair
@@ -43,6 +45,7 @@ None == <<-1, -1>>                            \* "no exit status"
 StatusTable == << <<0, 0>>, <<0, 3>>, <<0, 255>>, <<0, 256>>, <<32767, 65535>>, <<32768, 0>>, <<49152, 314>>,
                   <<65535, 65535>> >>
 Statuses == {StatusTable[i] : i \in StatusPick}
+Unread == <<-3, -3>>                          \* recv_exit_status() has not returned (yet)
 Eps == {"out", "err"}                         \* endpoints at the reader = streams at the writer
 
 VARIABLES sent,        \* [Chans -> [Eps -> Nat]]   bytes written so far by the peer
@@ -56,9 +59,11 @@ VARIABLES sent,        \* [Chans -> [Eps -> Nat]]   bytes written so far by the 
           tpc,         \* transport thread inside _feed_extended: <<>> or <<[m, flag]>>
           status,      \* [Chans -> Statuses \cup {None}]  exit status register at the reader
           pstate,      \* [Chans -> {"open","eof","closed"}]  what the peer has sent: EOF (shutdown_write), CLOSE
+          statusEv,    \* [Chans -> BOOLEAN]  Channel.status_event (what recv_exit_status waits for)
+          reported,    \* [Chans -> status | None | Unread]  what recv_exit_status() returned to the application
           shut         \* [Chans -> BOOLEAN]  the peer's EOF or CLOSE has been processed here: _handle_eof /
                        \* _set_closed have called close() on in_buffer and in_stderr_buffer
-vars == <<sent, statusSent, wire, buf, got, combine, swpc, moved, tpc, status, pstate, shut>>
+vars == <<sent, statusSent, wire, buf, got, combine, swpc, moved, tpc, status, pstate, shut, statusEv, reported>>
 
 (* ------------------------------------------------------------------ runs *)
 Run(c, s, pos, n) == [c |-> c, s |-> s, pos |-> pos, n |-> n]
@@ -102,6 +107,8 @@ Init == /\ sent = [c \in Chans |-> [e \in Eps |-> 0]]
         /\ status = [c \in Chans |-> None]
         /\ pstate = [c \in Chans |-> "open"]
         /\ shut = [c \in Chans |-> FALSE]
+        /\ statusEv = [c \in Chans |-> FALSE]
+        /\ reported = [c \in Chans |-> Unread]
 
 \* ---- the peer (send / send_stderr / send_exit_status on its end of the channel)
 PeerWrite(c, s, n) ==
@@ -109,25 +116,25 @@ PeerWrite(c, s, n) ==
   /\ sent[c][s] + n <= MaxBytes
   /\ wire' = Append(wire, Run(c, s, sent[c][s], n))
   /\ sent' = [sent EXCEPT ![c][s] = @ + n]
-  /\ UNCHANGED <<statusSent, buf, got, combine, swpc, moved, tpc, status, pstate, shut>>
+  /\ UNCHANGED <<statusSent, buf, got, combine, swpc, moved, tpc, status, pstate, shut, statusEv, reported>>
 
 PeerExit(c, v) ==
   /\ statusSent[c] = None /\ pstate[c] # "closed"
   /\ statusSent' = [statusSent EXCEPT ![c] = v]
   /\ wire' = Append(wire, Run(c, "exit", v, 0))
-  /\ UNCHANGED <<sent, buf, got, combine, swpc, moved, tpc, status, pstate, shut>>
+  /\ UNCHANGED <<sent, buf, got, combine, swpc, moved, tpc, status, pstate, shut, statusEv, reported>>
 
 \* shutdown_write() / close() on the peer's end: CHANNEL_EOF, CHANNEL_CLOSE (no data after either)
 PeerEof(c) ==
   /\ pstate[c] = "open"
   /\ pstate' = [pstate EXCEPT ![c] = "eof"]
   /\ wire' = Append(wire, Run(c, "eof", 0, 0))
-  /\ UNCHANGED <<sent, statusSent, buf, got, combine, swpc, moved, tpc, status, shut>>
+  /\ UNCHANGED <<sent, statusSent, buf, got, combine, swpc, moved, tpc, status, shut, statusEv, reported>>
 PeerClose(c) ==
   /\ pstate[c] # "closed"
   /\ pstate' = [pstate EXCEPT ![c] = "closed"]
   /\ wire' = Append(wire, Run(c, "close", 0, 0))
-  /\ UNCHANGED <<sent, statusSent, buf, got, combine, swpc, moved, tpc, status, shut>>
+  /\ UNCHANGED <<sent, statusSent, buf, got, combine, swpc, moved, tpc, status, shut, statusEv, reported>>
 
 \* BufferedPipe.feed: a pipe that has been closed still takes data (set_combine_stderr relies on it when the
 \* switch comes after the peer's EOF / CLOSE)
@@ -140,7 +147,7 @@ FeedOut ==
   /\ tpc = <<>> /\ wire # <<>> /\ Head(wire).s = "out"
   /\ LET m == Head(wire) IN buf' = [buf EXCEPT ![Dest(m.c)].out = Fed(@, Dest(m.c), <<m>>)]
   /\ wire' = Tail(wire)
-  /\ UNCHANGED <<sent, statusSent, got, combine, swpc, moved, tpc, status, pstate, shut>>
+  /\ UNCHANGED <<sent, statusSent, got, combine, swpc, moved, tpc, status, pstate, shut, statusEv, reported>>
 
 Route(m, flag) ==
   IF flag /\ Mutation # "ignore_combine"
@@ -154,7 +161,7 @@ FeedExtAtomic ==
   /\ swpc[Head(wire).c] # "moved"              \* (never "moved" when AtomicCombine)
   /\ Route(Head(wire), combine[Head(wire).c])
   /\ wire' = Tail(wire)
-  /\ UNCHANGED <<sent, statusSent, got, combine, swpc, moved, tpc, status, pstate, shut>>
+  /\ UNCHANGED <<sent, statusSent, got, combine, swpc, moved, tpc, status, pstate, shut, statusEv, reported>>
 
 \* pinned code: `if self.combine_stderr:` ... then the feed, no lock
 FeedExtTest ==
@@ -162,34 +169,52 @@ FeedExtTest ==
   /\ tpc = <<>> /\ wire # <<>> /\ Head(wire).s = "err"
   /\ tpc' = <<[m |-> Head(wire), flag |-> combine[Head(wire).c]]>>
   /\ wire' = Tail(wire)
-  /\ UNCHANGED <<sent, statusSent, buf, got, combine, swpc, moved, status, pstate, shut>>
+  /\ UNCHANGED <<sent, statusSent, buf, got, combine, swpc, moved, status, pstate, shut, statusEv, reported>>
 FeedExtFeed ==
-  /\ tpc # <<>>
+  /\ tpc # <<>> /\ tpc[1].m.s = "err"
   /\ Route(tpc[1].m, tpc[1].flag)
   /\ tpc' = <<>>
-  /\ UNCHANGED <<sent, statusSent, wire, got, combine, swpc, moved, status, pstate, shut>>
+  /\ UNCHANGED <<sent, statusSent, wire, got, combine, swpc, moved, status, pstate, shut, statusEv, reported>>
 
-ExitStatus ==
+\* Channel._handle_request("exit-status"): two statements of the transport thread, a waiter may run in between
+\*     self.exit_status = m.get_int()        (Store)
+\*     self.status_event.set()               (Signal)
+\* tpc holds the message between the two (flag is not used)
+Received(v) == CASE Mutation = "status_low_limb" -> <<0, v[2]>>               \* keeps the low 16 bits only
+                 [] Mutation = "status_signed" /\ v[1] >= 32768 -> <<-2, -2>>  \* top bit read as a sign: another number
+                 [] OTHER -> v
+Store(c, v) == status' = [status EXCEPT ![c] = Received(v)] /\ UNCHANGED statusEv
+Signal(c) == statusEv' = [statusEv EXCEPT ![c] = TRUE] /\ UNCHANGED status
+ExitStatus1 ==
   /\ tpc = <<>> /\ wire # <<>> /\ Head(wire).s = "exit"
-  /\ status' = [status EXCEPT ![Head(wire).c] = CASE Mutation = "status_low_limb" -> <<0, Head(wire).pos[2]>>       \* keeps the low 16 bits only
-                                              [] Mutation = "status_signed" /\ Head(wire).pos[1] >= 32768 -> <<-2, -2>>   \* top bit read as a sign: some other number
-                                              [] OTHER -> Head(wire).pos]
+  /\ tpc' = <<[m |-> Head(wire), flag |-> FALSE]>>
   /\ wire' = Tail(wire)
-  /\ UNCHANGED <<sent, statusSent, buf, got, combine, swpc, moved, tpc, pstate, shut>>
+  /\ (IF EventBeforeStatus THEN Signal(Head(wire).c) ELSE Store(Head(wire).c, Head(wire).pos))
+  /\ UNCHANGED <<sent, statusSent, buf, got, combine, swpc, moved, pstate, shut, reported>>
+ExitStatus2 ==
+  /\ tpc # <<>> /\ tpc[1].m.s = "exit"
+  /\ tpc' = <<>>
+  /\ (IF EventBeforeStatus THEN Store(tpc[1].m.c, tpc[1].m.pos) ELSE Signal(tpc[1].m.c))
+  /\ UNCHANGED <<sent, statusSent, wire, buf, got, combine, swpc, moved, pstate, shut, reported>>
+\* application: recv_exit_status() - waits for status_event, then returns exit_status
+RecvExitStatus(c) ==
+  /\ statusEv[c] /\ reported[c] = Unread
+  /\ reported' = [reported EXCEPT ![c] = status[c]]
+  /\ UNCHANGED <<sent, statusSent, wire, buf, got, combine, swpc, moved, tpc, status, pstate, shut, statusEv>>
 
 \* Channel._handle_eof / _handle_close: both pipes are closed (readers get EOF once they are empty)
 EofOrClose ==
   /\ tpc = <<>> /\ wire # <<>> /\ Head(wire).s \in {"eof", "close"}
   /\ shut' = [shut EXCEPT ![Head(wire).c] = TRUE]
   /\ wire' = Tail(wire)
-  /\ UNCHANGED <<sent, statusSent, buf, got, combine, swpc, moved, tpc, status, pstate>>
+  /\ UNCHANGED <<sent, statusSent, buf, got, combine, swpc, moved, tpc, status, pstate, statusEv, reported>>
 
 \* ---- application threads
 Recv(c, ep, k) ==
   /\ buf[c][ep] # <<>>
   /\ got' = [got EXCEPT ![c][ep] = AppendRuns(@, TakeBytes(buf[c][ep], k))]
   /\ buf' = [buf EXCEPT ![c][ep] = DropBytes(@, IF Mutation = "skip_byte" THEN k + 1 ELSE k)]
-  /\ UNCHANGED <<sent, statusSent, wire, combine, swpc, moved, tpc, status, pstate, shut>>
+  /\ UNCHANGED <<sent, statusSent, wire, combine, swpc, moved, tpc, status, pstate, shut, statusEv, reported>>
 
 Old(c) == IF Mutation = "lose_old" THEN <<>> ELSE buf[c].err
 
@@ -199,7 +224,7 @@ CombineAtomic(c) ==
   /\ combine' = [combine EXCEPT ![c] = TRUE]
   /\ buf' = [buf EXCEPT ![c].out = Fed(@, c, Old(c)), ![c].err = <<>>]
   /\ swpc' = [swpc EXCEPT ![c] = "on"]
-  /\ UNCHANGED <<sent, statusSent, wire, got, moved, tpc, status, pstate, shut>>
+  /\ UNCHANGED <<sent, statusSent, wire, got, moved, tpc, status, pstate, shut, statusEv, reported>>
 
 \* pinned code: [lock: flag := TRUE; data := stderr.empty()] ... _feed(data)
 CombineTake(c) ==
@@ -208,18 +233,19 @@ CombineTake(c) ==
   /\ moved' = [moved EXCEPT ![c] = Old(c)]
   /\ buf' = [buf EXCEPT ![c].err = <<>>]
   /\ swpc' = [swpc EXCEPT ![c] = "moved"]
-  /\ UNCHANGED <<sent, statusSent, wire, got, tpc, status, pstate, shut>>
+  /\ UNCHANGED <<sent, statusSent, wire, got, tpc, status, pstate, shut, statusEv, reported>>
 CombineRefeed(c) ==
   /\ swpc[c] = "moved"
   /\ buf' = [buf EXCEPT ![c].out = Fed(@, c, moved[c])]
   /\ moved' = [moved EXCEPT ![c] = <<>>]
   /\ swpc' = [swpc EXCEPT ![c] = "on"]
-  /\ UNCHANGED <<sent, statusSent, wire, got, combine, tpc, status, pstate, shut>>
+  /\ UNCHANGED <<sent, statusSent, wire, got, combine, tpc, status, pstate, shut, statusEv, reported>>
 
 Next == \/ \E c \in Chans, s \in Eps, n \in 1..MaxMsg : PeerWrite(c, s, n)
         \/ \E c \in Chans, v \in Statuses : PeerExit(c, v)
         \/ \E c \in Chans : PeerEof(c) \/ PeerClose(c)
-        \/ FeedOut \/ FeedExtAtomic \/ FeedExtTest \/ FeedExtFeed \/ ExitStatus \/ EofOrClose
+        \/ FeedOut \/ FeedExtAtomic \/ FeedExtTest \/ FeedExtFeed \/ ExitStatus1 \/ ExitStatus2 \/ EofOrClose
+        \/ \E c \in Chans : RecvExitStatus(c)
         \/ \E c \in Chans, ep \in Eps, k \in ReadSizes : Recv(c, ep, k)
         \/ \E c \in Chans : CombineAtomic(c) \/ CombineTake(c) \/ CombineRefeed(c)
 Spec == Init /\ [][Next]_vars
@@ -246,7 +272,9 @@ Lossless == \A c \in Chans : Drained(c) =>
               /\ Bytes(Of(got[c].out, c, "out")) = sent[c].out
               /\ Bytes(Of(got[c].err, c, "err")) + Bytes(Of(got[c].out, c, "err")) = sent[c].err
 \* the exit status reported is the one the peer sent
-ExitStatusRight == \A c \in Chans : status[c] # None => status[c] = statusSent[c] /\ status[c] \in Status
+ExitStatusRight == \A c \in Chans :
+                     /\ status[c] # None => status[c] = statusSent[c] /\ status[c] \in Status
+                     /\ reported[c] # Unread => reported[c] = statusSent[c]       \* incl.: never "no status" (-1)
 
 TypeOK == /\ \A c \in Chans : sent[c].out \in 0..MaxBytes /\ sent[c].err \in 0..MaxBytes
           /\ \A c \in Chans : swpc[c] \in {"off", "moved", "on"}
